@@ -377,7 +377,7 @@ pub fn property() -> Property {
             SubCheck {
                 name: "difficulty-iterator-model",
                 rule: "G-MAP (all modes + converts, <=30 objects, sizes 0-3 emphasised) x G-DIFF x op sequence (1-24 ops of next, nth(k) with k in {0..3, around the end, usize::MAX}, len, size_hint, by_ref().step_by/skip/take/zip/count/last/collect). Reference model: the sequence S a fresh twin yields with plain next() and a cursor; every observation (values same-value-equal on all fields, len/size_hint after every op, None forever after exhaustion) must match. Non-trivial: >=1 nth(k>=1) hitting inside the sequence and >=1 call after exhaustion.",
-                quick: 12_000,
+                quick: 60_000,
                 thorough: 200_000,
                 tape_len: 1300,
                 f: case_difficulty,
@@ -386,7 +386,7 @@ pub fn property() -> Property {
             SubCheck {
                 name: "performance-steps-model",
                 rule: "same maps/settings; ops next/nth(k)/last/len on GradualPerformance with arbitrary score states. Model: len() starts at the gradual-difficulty sequence length, nth(s,n) advances min(n+1, remaining), last advances to the end, None iff nothing remained; the embedded difficulty equals gradual-difficulty value #cursor. Non-trivial as above.",
-                quick: 8000,
+                quick: 40_000,
                 thorough: 120_000,
                 tape_len: 1300,
                 f: case_performance,
